@@ -258,10 +258,10 @@ def mintTokens (cx : Cx) (qid : Int) (outs : List BMsg) (sig : QSig) : PM (List 
     match r with
     | .ok sigs => pure sigs
     | .error e =>
-      -- restore the previous state (F4: PAID); if that fails the raw storage error is returned
+      -- restore the previous state (F4: PAID); if that fails the storage error is wrapped as a DB error (fix 1c07e11)
       match ← eff (.updateMintQuoteState q.id .paid) with
       | .ok _ => throw e
-      | .error _ => throw (0, "raw")
+      | .error _ => throw (1, "db")
 
 /-- The invoice watcher's reaction to the "settled" notification (`checkInvoicePaid`, after F11). -/
 def watcherNotified (qid : Nat) : PM Bool := do
